@@ -793,7 +793,11 @@ def _check_report(cx, lines, model, after=""):
 def _step_strict(cx, step, n):
     mon = cx.mon
     why = DM.reasons(cx.model)
-    ok, msg = _validate(cx, None)
+    # `fix=False` is the legacy spelling of "no tolerance" (as `True` is of tolerance 1): every other strict step (by step index and corpus size)
+    legacy = (n + len(DM.members(cx.model))) % 2 == 1
+    if legacy:
+        mon.stat("strict_spelt_fix_False")
+    ok, msg = _validate(cx, False if legacy else None)
     mon.cls("wf" if not why else "ill")
     cx.history.append("S+" if ok else "S-")
     mon.check(ok == (not why), "strict-iff-wellformed", observed="passed" if ok else "raised: %s" % msg,
